@@ -29,7 +29,12 @@ import (
 //	    operands, and adjacent writes of literals through the same receiver
 //	    are one write of their concatenation;
 //	N4  local variables are named after how they are declared (the text of
-//	    the declaring form), not after what the author called them.
+//	    the declaring form), not after what the author called them;
+//	N5  x = x + 1, x += 1 and x++ are x++ (likewise x--);
+//	N6  parentheses are dropped and put back by the printer where precedence
+//	    needs them;
+//	N7  `if !c {A} else {B}` is `if c {B} else {A}`, and `if a != b {A} else {B}`
+//	    is `if a == b {B} else {A}` (only with a plain else block, no init).
 //
 // Each is an equivalence of Go programs, not a heuristic; what remains
 // reported is every edit outside them (hoisting, reordering of statements,
@@ -51,9 +56,97 @@ func canonFunc(fd *ast.FuncDecl) *ast.FuncDecl {
 			}
 		}
 	}
+	stripParens(fd.Body)
 	fd.Body = canonBlock(fd.Body)
 	alphaLocals(fd)
 	return fd
+}
+
+// stripParens removes every ParenExpr; go/printer parenthesises by precedence.
+func stripParens(root ast.Node) {
+	unp := func(e ast.Expr) ast.Expr {
+		for {
+			p, ok := e.(*ast.ParenExpr)
+			if !ok {
+				return e
+			}
+			e = p.X
+		}
+	}
+	ast.Inspect(root, func(n ast.Node) bool {
+		switch x := n.(type) {
+		case *ast.BinaryExpr:
+			x.X, x.Y = unp(x.X), unp(x.Y)
+		case *ast.UnaryExpr:
+			x.X = unp(x.X)
+		case *ast.StarExpr:
+			x.X = unp(x.X)
+		case *ast.CallExpr:
+			x.Fun = unp(x.Fun)
+			for i := range x.Args {
+				x.Args[i] = unp(x.Args[i])
+			}
+		case *ast.SelectorExpr:
+			x.X = unp(x.X)
+		case *ast.IndexExpr:
+			x.X, x.Index = unp(x.X), unp(x.Index)
+		case *ast.SliceExpr:
+			x.X = unp(x.X)
+			if x.Low != nil {
+				x.Low = unp(x.Low)
+			}
+			if x.High != nil {
+				x.High = unp(x.High)
+			}
+			if x.Max != nil {
+				x.Max = unp(x.Max)
+			}
+		case *ast.TypeAssertExpr:
+			x.X = unp(x.X)
+		case *ast.KeyValueExpr:
+			x.Key, x.Value = unp(x.Key), unp(x.Value)
+		case *ast.CompositeLit:
+			for i := range x.Elts {
+				x.Elts[i] = unp(x.Elts[i])
+			}
+		case *ast.AssignStmt:
+			for i := range x.Lhs {
+				x.Lhs[i] = unp(x.Lhs[i])
+			}
+			for i := range x.Rhs {
+				x.Rhs[i] = unp(x.Rhs[i])
+			}
+		case *ast.ReturnStmt:
+			for i := range x.Results {
+				x.Results[i] = unp(x.Results[i])
+			}
+		case *ast.IfStmt:
+			x.Cond = unp(x.Cond)
+		case *ast.ForStmt:
+			if x.Cond != nil {
+				x.Cond = unp(x.Cond)
+			}
+		case *ast.SwitchStmt:
+			if x.Tag != nil {
+				x.Tag = unp(x.Tag)
+			}
+		case *ast.CaseClause:
+			for i := range x.List {
+				x.List[i] = unp(x.List[i])
+			}
+		case *ast.ExprStmt:
+			x.X = unp(x.X)
+		case *ast.RangeStmt:
+			x.X = unp(x.X)
+		case *ast.IncDecStmt:
+			x.X = unp(x.X)
+		case *ast.ValueSpec:
+			for i := range x.Values {
+				x.Values[i] = unp(x.Values[i])
+			}
+		}
+		return true
+	})
 }
 
 func canonBlock(b *ast.BlockStmt) *ast.BlockStmt {
@@ -82,6 +175,50 @@ func canonStmt(s ast.Stmt) []ast.Stmt {
 			e := canonStmt(x.Else)
 			if len(e) == 1 {
 				x.Else = e[0]
+			}
+		}
+		// N7: the positive form of a two-armed if
+		if eb, ok := x.Else.(*ast.BlockStmt); ok && x.Init == nil {
+			switch c := x.Cond.(type) {
+			case *ast.UnaryExpr:
+				if c.Op == token.NOT {
+					x.Cond = c.X
+					x.Body, x.Else = eb, x.Body
+				}
+			case *ast.BinaryExpr:
+				if c.Op == token.NEQ {
+					c.Op = token.EQL
+					x.Body, x.Else = eb, x.Body
+				}
+			}
+		}
+	case *ast.AssignStmt:
+		// N5: x = x + 1, x += 1  ->  x++
+		if len(x.Lhs) == 1 && len(x.Rhs) == 1 {
+			one := func(e ast.Expr) bool {
+				l, ok := e.(*ast.BasicLit)
+				return ok && l.Kind == token.INT && l.Value == "1"
+			}
+			lhs := exprString(x.Lhs[0])
+			switch x.Tok {
+			case token.ADD_ASSIGN, token.SUB_ASSIGN:
+				if one(x.Rhs[0]) {
+					tok := token.INC
+					if x.Tok == token.SUB_ASSIGN {
+						tok = token.DEC
+					}
+					return []ast.Stmt{&ast.IncDecStmt{X: x.Lhs[0], Tok: tok}}
+				}
+			case token.ASSIGN:
+				if be, ok := x.Rhs[0].(*ast.BinaryExpr); ok && (be.Op == token.ADD || be.Op == token.SUB) && one(be.Y) && exprString(be.X) == lhs {
+					if _, isId := x.Lhs[0].(*ast.Ident); isId {
+						tok := token.INC
+						if be.Op == token.SUB {
+							tok = token.DEC
+						}
+						return []ast.Stmt{&ast.IncDecStmt{X: x.Lhs[0], Tok: tok}}
+					}
+				}
 			}
 		}
 	case *ast.ForStmt:
